@@ -437,6 +437,128 @@ theorem c14_isolation (evs : List GEv) (sid : Nat) :
     exact ⟨q, hq, ha.1, ha.2⟩
   · simpa using lrun_acc (DgDemux.proj sid evs) none [] (by intro s h; cases h) s hs'
 
+/-! ### non-vacuity -/
+
+/-- two datagrams, a too-small read in between, a closing frame, reads to the end: the script satisfies nothing but
+"any op list", and the model really returns `short, [1,2,3], [4], eof` -/
+example :
+    let ops := [Op.w 0 [1, 2, 3], .w 0 [4], .r 2, .r 3, .w 1 [9], .w 0 [7], .r 5, .r 1]
+    (run ops).outs = [.short, .data [1, 2, 3], .data [4], .eof] ∧ (run ops).acc = [[1, 2, 3], [4]] := by
+  decide
+
+/-- `c14_short`'s hypotheses are satisfiable: a pipe holding `[1,2,3]` then `[4]`, read with a 2-byte buffer -/
+example : Abs ⟨[3, 1], [1, 2, 3, 4], false⟩ ([1, 2, 3] :: [[4]]) ∧ (2 : Nat) < ([1, 2, 3] : Bytes).length := by
+  refine ⟨⟨rfl, rfl⟩, by decide⟩
+
+/-- `c14_oversize` at a small maximum -/
+example : swrite true 3 [1, 2, 3, 4] = ([], .errShortBuffer) ∧ swrite true 3 [1, 2, 3] = ([[1, 2, 3]], .ok) ∧
+    swrite false 3 [1, 2, 3, 4] = ([[1, 2, 3], [4]], .ok) := by decide
+
+/-! ### exactly once, per stream, while the stream stays open -/
+
+/-- an event that keeps its stream open: a data frame (which may create the stream) or an application read -/
+def OpenEv (e : GEv) : Prop :=
+  match e.op with
+  | .w c _ => c = 0 ∧ e.creates = true
+  | .r _ => e.creates = false
+  | .c => False
+
+theorem step_open_w (s : Run) (d : Bytes) (h : s.p.closed = false) :
+    (step s (.w 0 d)).p.closed = false ∧ (step s (.w 0 d)).acc = s.acc ++ [d] := by
+  simp [step, write_eq, h]
+
+theorem step_open_r (s : Run) (cap : Nat) (h : s.p.closed = false) :
+    (step s (.r cap)).p.closed = false ∧ (step s (.r cap)).acc = s.acc := by
+  refine ⟨?_, rfl⟩
+  simp only [step, read_eq]
+  cases hl : s.p.lens with
+  | nil => simp [h]
+  | cons l ls => simp only; split <;> simp [h]
+
+theorem lrun_open : ∀ (evs : List GEv) (st : Option Run) (pre : List Bytes), (∀ e ∈ evs, OpenEv e) →
+    (∀ s, st = some s → s.p.closed = false ∧ s.acc = pre) → (st = none → pre = []) →
+    (∀ s, evs.foldl lstep st = some s → s.p.closed = false ∧ s.acc = pre ++ payloads evs) ∧
+    (evs.foldl lstep st = none → pre ++ payloads evs = []) := by
+  intro evs
+  induction evs with
+  | nil =>
+    intro st pre _ h hn
+    exact ⟨fun s hs => by simpa [payloads] using h s hs, fun hs => by simpa [payloads] using hn hs⟩
+  | cons e r ih =>
+    intro st pre hev h hn
+    have he : OpenEv e := hev e (by simp)
+    have hr : ∀ e' ∈ r, OpenEv e' := fun e' h' => hev e' (by simp [h'])
+    simp only [List.foldl_cons]
+    cases hop : e.op with
+    | w c d =>
+      have hc : c = 0 ∧ e.creates = true := by simpa [OpenEv, hop] using he
+      obtain ⟨hc0, hcr⟩ := hc
+      subst hc0
+      have hp : payloads (e :: r) = d :: payloads r := by simp [payloads, hop]
+      cases st with
+      | some s0 =>
+        obtain ⟨h1, h2⟩ := h s0 rfl
+        have hs := step_open_w s0 d h1
+        have := ih (lstep (some s0) e) (pre ++ [d]) hr
+          (by intro s hs'; simp only [lstep, DgDemux.lstep, hop] at hs'; cases hs'; exact ⟨hs.1, by rw [hs.2, h2]⟩)
+          (by intro hh; simp [lstep, DgDemux.lstep] at hh)
+        rw [hp]; simpa using this
+      | none =>
+        have hpre := hn rfl
+        subst hpre
+        have hs := step_open_w Run.init d rfl
+        have := ih (lstep none e) [d] hr
+          (by intro s hs'; simp only [lstep, DgDemux.lstep, hcr, if_true, hop] at hs'; cases hs'; exact ⟨hs.1, by rw [hs.2]; rfl⟩)
+          (by intro hh; simp [lstep, DgDemux.lstep, hcr] at hh)
+        rw [hp]; simpa using this
+    | r cap =>
+      have hcr : e.creates = false := by simpa [OpenEv, hop] using he
+      have hp : payloads (e :: r) = payloads r := by simp [payloads, hop]
+      cases st with
+      | some s0 =>
+        obtain ⟨h1, h2⟩ := h s0 rfl
+        have hs := step_open_r s0 cap h1
+        have := ih (lstep (some s0) e) pre hr
+          (by intro s hs'; simp only [lstep, DgDemux.lstep, hop] at hs'; cases hs'; exact ⟨hs.1, by rw [hs.2, h2]⟩)
+          (by intro hh; simp [lstep, DgDemux.lstep] at hh)
+        rw [hp]; exact this
+      | none =>
+        have := ih (lstep none e) pre hr
+          (by intro s hs'; simp [lstep, DgDemux.lstep, hcr] at hs')
+          (by intro _; exact hn rfl)
+        rw [hp]; exact this
+    | c => simp [OpenEv, hop] at he
+
+/-- **C14 (exactly once, whole, per stream, any interleaving).** Let frames and reads for any number of streams be
+interleaved in ANY way (any arrival order across connections, any scheduling of the readers).  If the events
+addressed to stream `sid` are data frames and reads only (the stream stays open), then at the end the datagrams its
+reads returned (in order), followed by the datagrams still queued in its pipe, are EXACTLY the payloads of the
+frames addressed to `sid`, in their arrival order: each delivered datagram comes out once, whole, unmixed — and
+reads with adequate buffers (`c14_drain`) fetch the queued rest. -/
+theorem c14_exactly_once (evs : List GEv) (sid : Nat) (hopen : ∀ e ∈ DgDemux.proj sid evs, OpenEv e) :
+    ∀ s, (evs.foldl gstep (fun _ => none)) sid = some s →
+      s.p.closed = false ∧
+      ∃ q, dataOf s.outs ++ q = payloads (DgDemux.proj sid evs) ∧ s.p.lens = q.map List.length ∧ s.p.buf = q.flatten := by
+  intro s hs
+  obtain ⟨hiso, hrest⟩ := c14_isolation evs sid
+  obtain ⟨⟨q, hq, hl, hb⟩, _⟩ := hrest s hs
+  have hs' : (DgDemux.proj sid evs).foldl lstep none = some s := by rw [← hiso]; exact hs
+  have := (lrun_open (DgDemux.proj sid evs) none [] hopen (by intro s h; cases h) (fun _ => rfl)).1 s hs'
+  refine ⟨this.1, q, ?_, hl, hb⟩
+  rw [hq, this.2]; simp
+
+/-- non-vacuity of `c14_isolation` / `c14_exactly_once`: frames of streams 1 and 2 interleaved, a short read on 1 -/
+example :
+    let evs : List GEv := [⟨1, .w 0 [1, 1], true⟩, ⟨2, .w 0 [2], true⟩, ⟨1, .r 1, false⟩, ⟨2, .w 0 [2, 2, 2], true⟩,
+                           ⟨1, .w 0 [1], true⟩, ⟨2, .r 9, false⟩, ⟨1, .r 2, false⟩]
+    (∀ e ∈ DgDemux.proj 1 evs, OpenEv e) ∧
+    ((evs.foldl gstep (fun _ => none)) 1).map (fun s => (s.outs, s.p.lens)) = some ([.short, .data [1, 1]], [1]) ∧
+    ((evs.foldl gstep (fun _ => none)) 2).map (fun s => (s.outs, s.p.lens)) = some ([.data [2]], [3]) := by
+  refine ⟨?_, by decide, by decide⟩
+  intro e he
+  simp [DgDemux.proj] at he
+  rcases he with h | h | h | h <;> subst h <;> simp [OpenEv]
+
 /-! ### The executable stream table (what the driver runs) is the table of the theorem -/
 
 theorem get_set (s : Sess) (sid sid' : Nat) (p : Pipe) :
@@ -531,3 +653,4 @@ end C14
 #print axioms C14.c14_oversize
 #print axioms C14.c14_isolation
 #print axioms C14.gen_structure
+#print axioms C14.c14_exactly_once
